@@ -456,18 +456,33 @@ func passEdgesDepth(fn *ssa.Function, depth int, guards ...Guard) (map[Edge]bool
 		if !ok {
 			continue
 		}
-		reach := ReachBlocks(fn, nil, edges)
+		// blocks entered only through a pass edge found so far
+		var passTargets []*ssa.BasicBlock
+		for e := range edges {
+			tgt := e.From.Succs[e.Idx]
+			if len(tgt.Preds) == 1 {
+				passTargets = append(passTargets, tgt)
+			}
+		}
+		behindPass := func(x *ssa.BasicBlock) bool {
+			for _, t := range passTargets {
+				if t.Dominates(x) {
+					return true
+				}
+			}
+			return false
+		}
+		if behindPass(phi.Block()) {
+			continue // the whole condition lies behind a pass edge already
+		}
 		for _, T := range []bool{true, false} {
 			all, some := true, false
-			dead := false
 			matched := make([]int, len(guards))
 			for i, e := range phi.Edges {
 				pred := phi.Block().Preds[i]
-				if !reach[pred] {
-					// this way of computing the phi is only reachable through a pass edge already:
-					// it cannot make the phi T on an uncut path. On its own it makes the branch dead
-					// under the cut, not a guard (no count, not complemented by FailEdges).
-					dead = true
+				if behindPass(pred) {
+					// this way of computing the phi has passed a guard (start-independent: dominance)
+					some = true
 					continue
 				}
 				if k, isK := e.(*ssa.Const); isK && k.Value != nil && k.Value.Kind() == constant.Bool {
@@ -499,17 +514,6 @@ func passEdgesDepth(fn *ssa.Function, depth int, guards ...Guard) (map[Edge]bool
 				}
 				some = true
 			}
-			if all && !some && dead {
-				// every way of the phi being T lies behind pass edges
-				if !noDeadEdges {
-					if T != neg {
-						edges[Edge{b, 0}] = true
-					} else {
-						edges[Edge{b, 1}] = true
-					}
-				}
-				continue
-			}
 			if !all || !some {
 				continue
 			}
@@ -527,6 +531,17 @@ func passEdgesDepth(fn *ssa.Function, depth int, guards ...Guard) (map[Edge]bool
 		}
 	}
 	return edges, counts
+}
+
+// GuardEdges: the pass edges of the guards themselves (direct matches, summarised predicates and
+// materialised booleans with a real contribution), without the branches that are merely dead under
+// the cut. Use it when the edges serve as starting points of a path search.
+func GuardEdges(fn *ssa.Function, guards ...Guard) (map[Edge]bool, []int) {
+	saved := noDeadEdges
+	noDeadEdges = true
+	pe, cnt := PassEdges(fn, guards...)
+	noDeadEdges = saved
+	return pe, cnt
 }
 
 // noDeadEdges: set while FailEdges computes the pass edges it complements (branches that are merely
@@ -1453,6 +1468,13 @@ func calleeImplies(call *ssa.Call, idx int, kind string, cls int, depth int, gua
 				}
 			case *ssa.Phi:
 				for i, e := range x.Edges {
+					if via != nil {
+						// a phi computed earlier and merely flowing through this edge (a named
+						// sub-condition): its constituents matter for the class, the place where the
+						// value is returned stays the outer edge
+						expand(e, neg, at, via, d+1)
+						continue
+					}
 					pred := x.Block().Preds[i]
 					var v2 *Edge
 					for si, su := range pred.Succs {
@@ -1787,18 +1809,8 @@ func PhiCutsFrom(fn *ssa.Function, starts []*ssa.BasicBlock, cut map[Edge]bool) 
 				if !reach[pred] || edgeCut {
 					continue
 				}
-				var bv bool
-				if k, isK := e.(*ssa.Const); isK && k.Value != nil && k.Value.Kind() == constant.Bool {
-					bv = constant.BoolVal(k.Value)
-				} else if AssumeFn != nil {
-					a := NormCond(e)
-					kn, av := AssumeFn(a)
-					if !kn {
-						known = false
-						break
-					}
-					bv = av != a.Negated
-				} else {
+				kn, bv := evalBoolUnder(e, reach, all, 0)
+				if !kn {
 					known = false
 					break
 				}
@@ -1824,4 +1836,56 @@ func PhiCutsFrom(fn *ssa.Function, starts []*ssa.BasicBlock, cut map[Edge]bool) 
 		}
 	}
 	return out
+}
+
+// evalBoolUnder: the truth value of a boolean SSA value when only the blocks in reach are live and
+// the edges in cut are dead: constants, values fixed by AssumeFn, negations, and phis all of whose
+// live incoming values agree (named sub-conditions: `isMarkup := a || b`).
+func evalBoolUnder(v ssa.Value, reach map[*ssa.BasicBlock]bool, cut map[Edge]bool, depth int) (bool, bool) {
+	if depth > 6 {
+		return false, false
+	}
+	switch x := v.(type) {
+	case *ssa.Const:
+		if x.Value != nil && x.Value.Kind() == constant.Bool {
+			return true, constant.BoolVal(x.Value)
+		}
+		return false, false
+	case *ssa.UnOp:
+		if x.Op == token.NOT {
+			k, b := evalBoolUnder(x.X, reach, cut, depth+1)
+			return k, !b
+		}
+	case *ssa.Phi:
+		known, val, any := true, false, false
+		for i, e := range x.Edges {
+			pred := x.Block().Preds[i]
+			edgeCut := false
+			for si, su := range pred.Succs {
+				if su == x.Block() && cut[Edge{pred, si}] {
+					edgeCut = true
+				}
+			}
+			if !reach[pred] || edgeCut {
+				continue
+			}
+			k, b := evalBoolUnder(e, reach, cut, depth+1)
+			if !k || (any && b != val) {
+				known = false
+				break
+			}
+			val, any = b, true
+		}
+		if known && any {
+			return true, val
+		}
+		return false, false
+	}
+	if AssumeFn != nil {
+		a := NormCond(v)
+		if kn, av := AssumeFn(a); kn {
+			return true, av != a.Negated
+		}
+	}
+	return false, false
 }
